@@ -333,7 +333,9 @@ func (c13Engine) Gen(r *core.Rand, tier string, i int) any {
 		if kids != "none" && !sc.Sched {
 			// make the EPIPE certain: the command is gone (a system() call later) when close()
 			// flushes to it; close() must still reap it and report its exit status
-			sc.Begin = append([]c13Op{{Kind: "print", Dest: "K1", Redir: "|"}, {Kind: "system", Name: "S1"}, {Kind: "close", Name: "K1"}}, sc.Begin...)
+			// (system() flushes every stream first, so the data that meets the dead command must be
+			// printed after it)
+			sc.Begin = append([]c13Op{{Kind: "print", Dest: "K1", Redir: "|"}, {Kind: "system", Name: "S1"}, {Kind: "print", Dest: "K1", Redir: "|"}, {Kind: "close", Name: "K1"}}, sc.Begin...)
 		}
 	}
 	switch f := r.Intn(20); {
